@@ -89,14 +89,14 @@ def format_tag_value(value: Any) -> str:
     Format a tag value.
     """
     # Simple strings (no spaces or commas or special values) can be displayed without quotes.
-    if (
-        isinstance(value, str)
-        and not re.match(".*[ ,].*", value)
-        and isinstance(parse_tag_value(value), str)
-    ):
-        return value
-    else:
-        return json.dumps(value, sort_keys=True)
+    if isinstance(value, str) and not re.match(".*[ ,].*", value):
+        try:
+            if isinstance(parse_tag_value(value), str):
+                return value
+        except ValueError:
+            # Strings that look like malformed JSON (e.g. "[abc") must be quoted.
+            pass
+    return json.dumps(value, sort_keys=True)
 
 
 def format_tag_key_value(key: str, value: Any, max_length: int = 50) -> str:
